@@ -664,8 +664,8 @@ def boundary_cases():
     return cases
 
 
-BERT_LENGTHS = [0, 1, 1023, 1024, 1025, 1124, 1125, 2047, 2048, 2049, 2148, 2149, 3000, 4095, 4096, 4097, 4196,
-                4197, 5000, 6145]
+BERT_LENGTHS = [0, 1, 1023, 1024, 1025, 1124, 1125, 2047, 2048, 2049, 2148, 2149, 3000, 4096, 4097, 4196, 4197,
+                5121]
 
 
 def bert_cases():
@@ -719,7 +719,7 @@ def bert_cases():
     for kind in ref.KINDS:
         for bert, ssz in ((None, 6), (2, 7)):
             for n in (0, 1, 2):
-                for (L, R) in ((3000, 5000), (1125, 2049)):
+                for (L, R) in ((2100, 3000), (1125, 2049)):
                     if kind == "stall":
                         cases.append(mk(plen=L, rlen=R, szx0=7, mps=2148, default=(ssz, False), limit=n, bert=bert))
                     else:
@@ -861,16 +861,18 @@ def blockopt_lines(world, rng, n):
     from aiocoap.optiontypes import BlockOption
     T = BlockOption.BlockwiseTuple
     cases = []
-    for szx in range(7):
-        for mx in range(7):
+    for szx in range(8):
+        unit = 16 << min(szx, 6)
+        for mx in range(8):
             for num in (0, 1, 2, 3, 40, 1000):
                 for more in (0, 1):
-                    for ps in (0, (16 << szx) - 1, 16 << szx, (16 << szx) + 1):
+                    for ps in (0, 1, unit - 1, unit, unit + 1, 2 * unit - 1, 2 * unit, 2 * unit + 1, 3 * unit, 5000):
                         cases.append((num, more, szx, mx, ps))
     for _ in range(n):
-        szx = rng.randrange(7)
-        cases.append((rng.randrange(1 << 20), rng.randrange(2), szx, rng.randrange(7),
-                      max(0, (16 << szx) + rng.randrange(-20, 20))))
+        szx = rng.randrange(8)
+        unit = 16 << min(szx, 6)
+        cases.append((rng.randrange(1 << 20), rng.randrange(2), szx, rng.randrange(8),
+                      max(0, unit * rng.randrange(0, 4) + rng.choice([0, 0, 0, rng.randrange(-20, 20)]))))
     lines, outs = [], []
     for (num, more, szx, mx, ps) in cases:
         t = T(num, bool(more), szx)
@@ -888,7 +890,7 @@ def run(env, rep):
         ncorpus = len(cases)
         cases += boundary_cases()
         nboundary = len(cases) - ncorpus
-        cases += [random_case(env.rng) for _ in range(env.scale(1500, 40000))]
+        cases += [random_case(env.rng) for _ in range(env.scale(1000, 40000))]
         rep.exhaustive_parts.append("boundary table: %d cases enumerated in full" % nboundary)
 
         rl, ro, rc, il, io, ic = [], [], [], [], [], []
